@@ -17,6 +17,20 @@ import (
 // c19Config says which parts of the pod are symbolic in a C19 kernel.
 type c19Config struct {
 	frac, mem, cnt int // 0 absent, 1 symbolic, 2 concrete valid value, 3 symbolic presence with concrete valid value
+	digits         int // >0: the symbolic string has exactly this many bytes, each assumed to be an ASCII digit
+}
+
+// c19String is an arbitrary byte string of length 1..maxL, or (digits > 0) a string of exactly
+// `digits` ASCII digits.
+func c19String(name string, maxL, digits int) string {
+	if digits == 0 {
+		return vr.AnyString(name, vr.Choose(name+"Len", maxL)+1)
+	}
+	s := vr.AnyString(name, digits)
+	for i := 0; i < len(s); i++ {
+		vr.Assume(s[i] >= '0' && s[i] <= '9')
+	}
+	return s
 }
 
 func c19Present(mode int, name string) bool {
@@ -29,6 +43,30 @@ func c19Present(mode int, name string) bool {
 	return true
 }
 
+// c19Denote is the oracle's own reading of a decimal annotation: optional '+', then one or more ASCII
+// digits; the mathematical value if it fits uint64. (Independent of strconv.)
+func c19Denote(s string) (v uint64, ok bool) {
+	i := 0
+	if len(s) > 0 && s[0] == '+' {
+		i = 1
+	}
+	if i == len(s) {
+		return 0, false
+	}
+	for ; i < len(s); i++ {
+		c := s[i]
+		if c < '0' || c > '9' {
+			return 0, false
+		}
+		d := uint64(c - '0')
+		if v > (math.MaxUint64-d)/10 {
+			return 0, false
+		}
+		v = v*10 + d
+	}
+	return v, true
+}
+
 // c19Run: admission (GPUSharing.Validate), the binder's validator (ValidateGpuRequests) and the
 // scheduler (NewTaskInfo -> updatePodAdditionalFields) are run on the same pod.
 //   - gpu-fraction (symbolic mode): an arbitrary *result* of strconv.ParseFloat (any double incl.
@@ -36,7 +74,7 @@ func c19Present(mode int, name string) bool {
 //   - gpu-memory, gpu-fraction-num-devices (symbolic mode): arbitrary byte strings of length 1..L pushed
 //     through the real strconv.ParseUint / ParseInt code.
 func c19Run(cfg c19Config) {
-	maxL := vr.Bound("strlen", 3, 20)
+	maxL := vr.Bound("strlen", 3, 5)
 	pod := &v1.Pod{}
 	pod.Name, pod.Namespace = "p", "ns"
 	pod.Annotations = map[string]string{}
@@ -57,14 +95,14 @@ func c19Run(cfg c19Config) {
 	}
 	if hasMem {
 		if cfg.mem == 1 {
-			pod.Annotations[constants.GpuMemory] = vr.AnyString("mem", vr.Choose("memLen", maxL)+1)
+			pod.Annotations[constants.GpuMemory] = c19String("mem", maxL, cfg.digits)
 		} else {
 			pod.Annotations[constants.GpuMemory] = "1024"
 		}
 	}
 	if hasCnt {
 		if cfg.cnt == 1 {
-			pod.Annotations[constants.GpuFractionsNumDevices] = vr.AnyString("cnt", vr.Choose("cntLen", maxL)+1)
+			pod.Annotations[constants.GpuFractionsNumDevices] = c19String("cnt", maxL, cfg.digits)
 		} else {
 			pod.Annotations[constants.GpuFractionsNumDevices] = "2"
 		}
@@ -105,8 +143,8 @@ func c19Run(cfg c19Config) {
 	// expected device count (denotation of the count annotation; default 1)
 	expCount := int64(1)
 	if hasCnt {
-		c, cerr := strconv.ParseUint(pod.Annotations[constants.GpuFractionsNumDevices], 10, 64)
-		vr.Assert(cerr == nil && c >= 1, "C19.count-positive")
+		c, cok := c19Denote(pod.Annotations[constants.GpuFractionsNumDevices])
+		vr.Assert(cok && c >= 1, "C19.count-positive")
 		if c > math.MaxInt64 {
 			vr.Assert(g.GetNumOfGpuDevices() > 0 && uint64(g.GetNumOfGpuDevices()) == c, "C19.count-exact#exceeds-int64")
 		} else {
@@ -127,17 +165,19 @@ func c19Run(cfg c19Config) {
 		if !hasCnt {
 			vr.Assert(g.GetNumOfGpuDevices() == 1, "C19.fraction-default-count")
 		}
-		if f < 0.005 {
+		switch {
+		case f < 0.005:
 			vr.Assert(g.GPUs() > 0, "C19.fraction-quota-positive#below-0.005")
-		} else {
+		case expCount > math.MaxInt64/100 || expCount < 0:
+			vr.Assert(g.GPUs() > 0, "C19.fraction-quota-positive#count-above-maxint64/100")
+		default:
 			vr.Assert(g.GPUs() > 0, "C19.fraction-quota-positive")
 		}
-		_ = expCount
 	}
 
 	if hasMem {
-		m, merr := strconv.ParseUint(pod.Annotations[constants.GpuMemory], 10, 64)
-		vr.Assert(merr == nil && m >= 1, "C19.memory-positive")
+		m, mok := c19Denote(pod.Annotations[constants.GpuMemory])
+		vr.Assert(mok && m >= 1, "C19.memory-positive")
 		if m > math.MaxInt64 {
 			vr.Assert(pi.ResourceRequestType == RequestTypeGpuMemory && g.GpuMemory() > 0 && uint64(g.GpuMemory()) == m, "C19.memory-exact#exceeds-int64")
 		} else {
@@ -166,19 +206,19 @@ func VerifC19_Fraction() {
 }
 
 // VerifC19_Memory: the gpu-memory annotation is any byte string of length 1..L.
-// BOUND: L = 3 (quick) / 20 (thorough) bytes; count annotation absent or the literal "2"
+// BOUND: L = 3 (quick) / 5 (thorough) arbitrary bytes; count annotation absent or the literal "2"
 func VerifC19_Memory() {
 	c19Run(c19Config{frac: 0, mem: 1, cnt: 3})
 }
 
 // VerifC19_CountWithFraction: the gpu-fraction-num-devices annotation is any byte string of length 1..L, fraction "0.5".
-// BOUND: L = 3 (quick) / 20 (thorough) bytes
+// BOUND: L = 3 (quick) / 5 (thorough) arbitrary bytes
 func VerifC19_CountWithFraction() {
 	c19Run(c19Config{frac: 2, mem: 0, cnt: 1})
 }
 
 // VerifC19_CountWithMemory: as above with gpu-memory "1024".
-// BOUND: L = 3 (quick) / 20 (thorough) bytes
+// BOUND: L = 3 (quick) / 5 (thorough) arbitrary bytes
 func VerifC19_CountWithMemory() {
 	c19Run(c19Config{frac: 0, mem: 2, cnt: 1})
 }
@@ -187,4 +227,23 @@ func VerifC19_CountWithMemory() {
 // whole-GPU limit and the GPU-sharing switch.
 func VerifC19_Matrix() {
 	c19Run(c19Config{frac: 3, mem: 3, cnt: 3})
+}
+
+// VerifC19_MemoryDigits20_Thorough: gpu-memory is any string of exactly 20 decimal digits (covers the whole
+// uint64 range and beyond, i.e. the ParseUint/ParseInt disagreement region).
+// BOUND: exactly 20 bytes, each an ASCII digit (non-digit bytes in long strings are outside the claim)
+func VerifC19_MemoryDigits20_Thorough() {
+	c19Run(c19Config{frac: 0, mem: 1, cnt: 0, digits: 20})
+}
+
+// VerifC19_MemoryDigits19_Thorough: as above with 19 digits (largest length that always fits uint64).
+// BOUND: exactly 19 bytes, each an ASCII digit
+func VerifC19_MemoryDigits19_Thorough() {
+	c19Run(c19Config{frac: 0, mem: 1, cnt: 0, digits: 19})
+}
+
+// VerifC19_CountDigits20_Thorough: gpu-fraction-num-devices is any string of exactly 20 decimal digits; fraction "0.5".
+// BOUND: exactly 20 bytes, each an ASCII digit
+func VerifC19_CountDigits20_Thorough() {
+	c19Run(c19Config{frac: 2, mem: 0, cnt: 1, digits: 20})
 }
